@@ -554,8 +554,9 @@ for the target axis `t`. -/
 /-- **broadcast.**  It succeeds exactly when every dimension of `a` that the target lacks has a
 single position (it is squeezed away); otherwise `ValueError`.  On success:
 * the result's dimensions are the target's, in the target's order;
-* the axis at the place of the target axis `t` is `bcastAxis a t`: the target's axis when `a` has no
-  dimension of that name, or when `a`'s has a single label and the target's has not; `a`'s own axis
+* the axis at the place of the target axis `t` is `bcastAxis a t`: a fresh axis with the target's name
+  and labels (`t.bare` - the target's metadata is not taken over) when `a` has no dimension of that
+  name, or when `a`'s has a single label and the target's has not; `a`'s own axis
   (whole: labels, kind, metadata - *not* compared with the target's labels) otherwise;
 * metadata and value kind are kept, the result is well formed;
 * every element of the result is the element of `a` at the same coordinate along each of `a`'s
